@@ -31,6 +31,10 @@ type pipelineConn struct {
 	ctx         context.Context
 	cancelCause context.CancelCauseFunc
 
+	// Lock for writing tcp frames. It's a chan so that waiting for it
+	// can be interrupted.
+	wl chan struct{}
+
 	m        sync.RWMutex
 	closed   bool
 	nextQid  int
@@ -45,6 +49,7 @@ func newPipelineConn(c net.Conn, t *PipelineTransport) *pipelineConn {
 		t:           t,
 		ctx:         ctx,
 		cancelCause: cancel,
+		wl:          make(chan struct{}, 1),
 		queue:       make(map[uint32]chan *dnsmsg.Msg),
 	}
 	pc.startLoops()
@@ -65,7 +70,7 @@ func (c *pipelineConn) exchange(ctx context.Context, m []byte) (*dnsmsg.Msg, err
 	}
 	defer c.deleteQueueC(qid)
 
-	err = c.write(m, qid)
+	err = c.write(ctx, m, qid)
 	if err != nil {
 		return nil, err
 	}
@@ -138,7 +143,7 @@ func (c *pipelineConn) readLoop() {
 	}
 }
 
-func (c *pipelineConn) write(m []byte, qid uint16) (err error) {
+func (c *pipelineConn) write(ctx context.Context, m []byte, qid uint16) (err error) {
 	isTCP := c.t.opts.IsTCP
 	if isTCP {
 		b, err := copyMsgWithLenHdr(m)
@@ -146,7 +151,22 @@ func (c *pipelineConn) write(m []byte, qid uint16) (err error) {
 		if err != nil {
 			return err
 		}
+		// If the peer stops reading, a write (and the writes queued behind
+		// it) will block once the socket buffers are full. Never wait
+		// longer than ctx.
+		select {
+		case c.wl <- struct{}{}:
+		case <-ctx.Done():
+			pool.ReleaseBuf(b)
+			return context.Cause(ctx)
+		case <-c.ctx.Done():
+			pool.ReleaseBuf(b)
+			return context.Cause(c.ctx)
+		}
+		ddl, _ := ctx.Deadline() // zero value means no deadline
+		c.c.SetWriteDeadline(ddl)
 		_, err = c.c.Write(b)
+		<-c.wl
 		pool.ReleaseBuf(b)
 		if err != nil {
 			// The connection is dead (e.g. reset by the server while it was
